@@ -529,9 +529,18 @@ func (db *RockDB) HClear(ts int64, hkey []byte) (int64, error) {
 		defer tableIndexes.Unlock()
 	}
 
-	hlen, err := db.HLen(hkey)
+	// use the timestamp of the log entry to check the expire, not the local clock,
+	// so all replicas (and a replay of the log) get the same result
+	oldh, expired, err := db.hHeaderMeta(ts, hkey, false)
 	if err != nil {
 		return 0, err
+	}
+	hlen := int64(0)
+	if !expired {
+		hlen, err = Int64(oldh.UserData, nil)
+		if err != nil {
+			return 0, err
+		}
 	}
 	if hlen == 0 {
 		return 0, nil
